@@ -348,6 +348,13 @@ func (m *Machine) bagof(set bool, template, goal, instances *T, fr *frame) (bool
 			alts = append(alts, conj(goals))
 		}
 		if len(alts) > 1 {
+			// the ORDER in which the groups are returned is open (ISO and implementations differ). It becomes
+			// observable as list order when an enclosing findall/bagof/setof is collecting this call's solutions.
+			for i := range m.cps {
+				if m.cps[i].kind == cpCollectDone {
+					m.GroupOrderObservable = true
+				}
+			}
 			m.cps = append(m.cps, choicepoint{kind: cpAlts, trailMark: len(m.trail), fr: fr, p: alts[1:]})
 		}
 		m.frames = &frame{goal: alts[0], next: fr.next, cutB: len(m.cps), chain: fr.chain}
